@@ -141,7 +141,71 @@ func runC19(c *core.Ctx) {
 		}
 	}
 
-	c.Rule("C19.freshslot", "every container assembler of bindnode hands each new entry its own Go value: the reflect.Value placed in the child assembler's val field by AssembleValue / AssembleKey is the result of a reflect call made in that activation (reflect.New(..).Elem(), Index, FieldByIndex, Elem ...), never a value kept in the assembler between entries", 6)
+	c.Rule("C19.freshslot", freshSlotText, 6)
+	checkFreshSlot(c)
+
+	c.Rule("C19.unwrap", "Unwrap returns Addr().Interface() of the reflect.Value held in the node (field val of _node / _nodeRepr), never of a copy", 1)
+	if fn := p.Func("node/bindnode", "", "Unwrap"); fn != nil {
+		for _, ret := range core.Returns(fn) {
+			for _, v := range core.ResultValues(ret, 0) {
+				if core.IsNilConst(v) {
+					continue
+				}
+				ic, ok := core.Strip(v).(*ssa.Call)
+				good := ok && core.IsMethod(ic, "reflect", "Value", "Interface")
+				if good {
+					ac, ok := core.Strip(ic.Call.Args[0]).(*ssa.Call)
+					good = ok && core.IsMethod(ac, "reflect", "Value", "Addr")
+					if good {
+						sl := core.BackSlice(ac.Call.Args[0], core.SliceOpts{Stores: true})
+						fromField, other := false, false
+						for w := range sl {
+							switch x := w.(type) {
+							case *ssa.FieldAddr:
+								if fnm := core.FieldName(x); fnm == "_node.val" || fnm == "_nodeRepr.val" {
+									fromField = true
+								}
+							case *ssa.Call:
+								other = true
+								_ = x
+							}
+						}
+						good = fromField && !other
+					}
+				}
+				c.Check(good, "node/bindnode.Unwrap#addr-of-node-value", p.Pos(ret.Pos()), "returns the address of the node's own value", "Unwrap does not return Addr().Interface() of the node's own reflect.Value")
+			}
+		}
+	} else {
+		c.Undecided("node/bindnode.Unwrap", "-", "not found")
+	}
+}
+
+// externalReadOnly: methods/functions of packages outside the module that do
+// not change the state of an object passed by reference.
+var externalReadOnly = map[string]bool{
+	"Load": true, "Range": true, "Lock": true, "Unlock": true, "RLock": true, "RUnlock": true,
+	"String": true, "Len": true, "Error": true, "EncodeToString": true, "DecodeString": true, "Bytes": true,
+}
+
+// sameValueShallow: identical SSA value, or the same conversion applied to identical operands.
+func sameValueShallow(a, b ssa.Value) bool {
+	if a == b || core.SameLoad(a, b) {
+		return true
+	}
+	ca, ok1 := a.(*ssa.Convert)
+	cb, ok2 := b.(*ssa.Convert)
+	if ok1 && ok2 && ca.Type() == cb.Type() {
+		return sameValueShallow(ca.X, cb.X)
+	}
+	return false
+}
+
+const freshSlotText = "every container assembler of bindnode hands each new entry its own Go value: the reflect.Value placed in the child assembler's val field by AssembleValue / AssembleKey is the result of a reflect call made in that activation (reflect.New(..).Elem(), Index, FieldByIndex, Elem ...), never a value kept in the assembler between entries"
+
+// checkFreshSlot is shared by C19 (unwrap/round trip faithfulness), C01 (what is built reads back) and C12 (exact results).
+func checkFreshSlot(c *core.Ctx) {
+	p := c.P
 	for _, fn := range p.ModFns {
 		pk := core.FuncPkg(fn)
 		if pk == nil || core.RelPkg(pk.Path()) != "node/bindnode" || len(fn.Blocks) == 0 || fn.Synthetic != "" {
@@ -212,59 +276,4 @@ func runC19(c *core.Ctx) {
 		})
 	}
 
-	c.Rule("C19.unwrap", "Unwrap returns Addr().Interface() of the reflect.Value held in the node (field val of _node / _nodeRepr), never of a copy", 1)
-	if fn := p.Func("node/bindnode", "", "Unwrap"); fn != nil {
-		for _, ret := range core.Returns(fn) {
-			for _, v := range core.ResultValues(ret, 0) {
-				if core.IsNilConst(v) {
-					continue
-				}
-				ic, ok := core.Strip(v).(*ssa.Call)
-				good := ok && core.IsMethod(ic, "reflect", "Value", "Interface")
-				if good {
-					ac, ok := core.Strip(ic.Call.Args[0]).(*ssa.Call)
-					good = ok && core.IsMethod(ac, "reflect", "Value", "Addr")
-					if good {
-						sl := core.BackSlice(ac.Call.Args[0], core.SliceOpts{Stores: true})
-						fromField, other := false, false
-						for w := range sl {
-							switch x := w.(type) {
-							case *ssa.FieldAddr:
-								if fnm := core.FieldName(x); fnm == "_node.val" || fnm == "_nodeRepr.val" {
-									fromField = true
-								}
-							case *ssa.Call:
-								other = true
-								_ = x
-							}
-						}
-						good = fromField && !other
-					}
-				}
-				c.Check(good, "node/bindnode.Unwrap#addr-of-node-value", p.Pos(ret.Pos()), "returns the address of the node's own value", "Unwrap does not return Addr().Interface() of the node's own reflect.Value")
-			}
-		}
-	} else {
-		c.Undecided("node/bindnode.Unwrap", "-", "not found")
-	}
-}
-
-// externalReadOnly: methods/functions of packages outside the module that do
-// not change the state of an object passed by reference.
-var externalReadOnly = map[string]bool{
-	"Load": true, "Range": true, "Lock": true, "Unlock": true, "RLock": true, "RUnlock": true,
-	"String": true, "Len": true, "Error": true, "EncodeToString": true, "DecodeString": true, "Bytes": true,
-}
-
-// sameValueShallow: identical SSA value, or the same conversion applied to identical operands.
-func sameValueShallow(a, b ssa.Value) bool {
-	if a == b || core.SameLoad(a, b) {
-		return true
-	}
-	ca, ok1 := a.(*ssa.Convert)
-	cb, ok2 := b.(*ssa.Convert)
-	if ok1 && ok2 && ca.Type() == cb.Type() {
-		return sameValueShallow(ca.X, cb.X)
-	}
-	return false
 }
